@@ -11,7 +11,7 @@
                     over m (ideal signatures: unforgeability, one meaning per byte string). *)
 From Coq Require Import List String Bool NArith ZArith.
 Import ListNotations.
-From VF Require Import common.Json gen.Gen_C07 C07.Model C07.Proofs.
+From VF Require Import common.Json gen.Gen_C07 C07.Model C07.Proofs C07.ProofsRT.
 Open Scope string_scope.
 Open Scope list_scope.
 
@@ -68,6 +68,24 @@ Theorem tamper_detected :
     /\ p_repr p = s_repr c.
 Proof. exact tamper_one. Qed.
 Print Assumptions tamper_detected.
+
+(* ---- FIRST CLAUSE (proofValue representation): a document signed through signObject verifies.  For every
+        canonicaliser etc.: if signing document d (without proof member) with options c produced message m, the signer
+        returned a byte string whose text form t decodes to "signature by k over m", the verification method named in
+        c resolves to k, a configured suite accepts the type and `created` parses, then the document with the proof
+        appended by AddProof is accepted with exactly one verified proof. ---- *)
+Theorem verify_sign :
+  forall canon compact_sec time_ok nonce_dec pv_dec seg_dec resolve accepts compact_proof d c t k m,
+    s_repr c = RProofValue -> s_nonce c = "" ->
+    lookup d "proof" = None ->
+    time_ok (s_created c) = true -> nonce_dec "" = Some "" ->
+    sign_message canon compact_sec compact_proof excluded_keys d c = Some m ->
+    pv_dec t (s_type c) = DSig (SBy k m) ->
+    key_of resolve (proof_of_ctx c) = Some k -> accepts (s_type c) = true ->
+    verify_object canon compact_sec time_ok nonce_dec pv_dec seg_dec resolve accepts compact_proof excluded_keys
+      (add_proof d (signed_proof c t)) = Verified 1.
+Proof. exact verify_sign_pv. Qed.
+Print Assumptions verify_sign.
 
 (* ---- documents and proof sets: an accepted document has a proof member, every entry of it decodes into a typed
         proof carrying the received members, and EVERY entry verifies (the count is the number of entries) ---- *)
